@@ -51,6 +51,11 @@ def gen_cases(tier, seed):
                       'return_x': rng.random() < 0.5, 'return_exceptions': rng.random() < 0.6,
                       'reject_every': rng.choice([0, 3]), 'fail_every': rng.choice([0, 4]),
                       'threads': rng.choice([1, 3]), 'seed': rng.randrange(1 << 30)})
+    # more callers than slots, equal service times (results come out back-to-back), no backpressure: the waiters of both
+    # implementations must all be served
+    for i in range(10 if tier == 'quick' else 150):
+        cases.append({'kind': 'servers', 'n': 12, 'capacity': rng.choice([2, 2, 3]), 'return_x': False, 'return_exceptions': True,
+                      'reject_every': 0, 'fail_every': 0, 'threads': 3, 'waiters': True, 'seed': rng.randrange(1 << 30)})
     return cases
 
 
